@@ -13,7 +13,8 @@
 (* The model contains fix D4 (an empty object that is not an array element *)
 (* leaves pstate = 2, so that the next name gets its comma).               *)
 (***************************************************************************)
-EXTENDS Integers, Sequences, FiniteSets, TLC, FmtTable
+EXTENDS Integers, Sequences, FiniteSets, TLC
+CONSTANT FmtF(_)         \* %f text of 8 IEEE bytes
 CONSTANT DecText(_)      \* %PRId64 text of 8 LE bytes (taken from Layer A's Dec64: libc is trusted for integers)
 
 Max(a, b) == IF a > b THEN a ELSE b
